@@ -7,24 +7,10 @@ VERIF = Path(__file__).resolve().parent.parent
 
 ALL = ["C%02d" % i for i in range(1, 21)]
 
-# property -> dict(level, text, note, technique, design)
-CHECKS = {
-    "C17": dict(
-        level="model_checking",
-        text="spec/KV.tla models the ethdb Database/Batch interface (put/delete/get/has/iterate/batch put/delete/"
-             "SetPending/GetPending/Write/Reset/Replay); TLC checks its invariants exhaustively on a bounded model and emits "
-             "EVERY transition of the bounded state graph as a behaviour with the specified observation; harness/cmd/kvdrv "
-             "replays each on leveldb, pebble, memorydb, table(memorydb), table(leveldb) and compares every observation; long "
-             "seeded random call sequences logged from the real back-ends are validated by spec/KVTrace.tla. Right level: the "
-             "property is a statement about all call histories of a small sequential interface.",
-        note="Bounds: quick 3 keys x 2 values x 2 batches, all behaviours of <=3 calls (+exhaustive invariants at 4 calls), 100 "
-             "random traces of 60 calls; thorough 4 keys x 3 values at 5 calls, all behaviours of <=4 calls, large values, 1500 "
-             "random traces of 150 calls. Trusted: goleveldb/pebble libraries, Go runtime, TLC. Out of scope: torn engine-level "
-             "commits, closing the database, ValueSize of a non-empty batch, concurrent use of one batch.",
-        technique="TLA+ spec + TLC exhaustive model checking; TLC-generated behaviours replayed on 5 real back-ends; "
-                  "implementation traces validated by a TLA+ trace spec",
-        design="DESIGN.md §4 C17"),
-}
+# property -> dict(level, text, note, technique, design), one file tools/props/<ID>.meta.json per claimed property
+CHECKS = {}
+for f in sorted((VERIF / "tools" / "props").glob("C*.meta.json")):
+    CHECKS[f.name.split(".")[0]] = json.loads(f.read_text())
 
 NOT_YET = "check not built yet in this round (planned, see DESIGN.md §8 build-out order)"
 
